@@ -453,3 +453,41 @@ def rule_length_delivered(ctx):
                                                              "from the sites present", where=f"{m.relpath}:{c.lineno}", operand="L"))
     r.floor(n, 1, "constructor calls in generators accepting L and sites")
     return r
+
+
+def rule_ctor_length_siblings(ctx):
+    r = RuleResult(
+        "ctor-length-siblings",
+        "the MPS and the MPO constructor work out the total length the same way (argument, else number of arrays, else largest site + 1) and "
+        "both store *that* value as self._L: a sibling that stores something else (the number of arrays given) loses the requested length "
+        "whenever only a subset of sites is built",
+    )
+    CORE1D = "quimb.tensor.tn1d.core"
+    vals = {}
+    for cname in ("MatrixProductState", "MatrixProductOperator"):
+        f = ctx.prog.func(CORE1D, f"{cname}.__init__")
+        if f is None:
+            raise AnalysisError(f"ctor-length-siblings: {cname}.__init__ not found")
+        st = [a for a in ast.walk(f.node) if isinstance(a, ast.Assign) and any(isinstance(t, ast.Attribute) and t.attr == "_L" for t in a.targets)]
+        if not st:
+            raise AnalysisError(f"ctor-length-siblings: {cname}.__init__ no longer stores self._L")
+        vals[cname] = (f, st[-1])
+    (fa, a), (fb, b) = vals["MatrixProductState"], vals["MatrixProductOperator"]
+
+    def norm(e, f):
+        import copy as _copy
+        e2 = _copy.deepcopy(e)
+        order = {}
+        for y in ast.walk(e2):
+            if isinstance(y, ast.Name) and y.id not in f.params and not any(isinstance(c, ast.Call) and c.func is y for c in ast.walk(e2)):
+                y.id = order.setdefault(y.id, f"v{len(order)}")
+        return ast.dump(e2)
+
+    if norm(a.value, fa) == norm(b.value, fb):
+        r.ok("MatrixProductState/MatrixProductOperator.__init__", sample={"self._L": src_of(a.value)})
+    else:
+        # the odd one out is the one that does not store its length parameter
+        odd, f_odd, name = (a, fa, "MatrixProductState") if not (isinstance(a.value, ast.Name) and a.value.id in fa.params) else (b, fb, "MatrixProductOperator")
+        r.bad(Finding("ctor-length-siblings", f"{name}.__init__", f"stores `self._L = {src_of(odd.value)}` while its sibling stores `{src_of((b if odd is a else a).value)}`: the length worked out "
+                                                                   "from `L` / `sites` is lost", where=f"{f_odd.module.relpath}:{odd.lineno}", operand="_L"))
+    return r
